@@ -1283,7 +1283,7 @@ func classify(in *oracleIn) snapClass {
 	for _, n := range in.catBefore.Nodes {
 		if n.Peer == p && n.ID != "" {
 			for _, i := range insts {
-				if i.Node.ID == n.ID && i.Node.Name != n.Name {
+				if i.Node.ID == n.ID && !strings.EqualFold(i.Node.Name, n.Name) {
 					cl.rename = true
 					cl.oldNames[n.Name] = true
 				}
@@ -1355,9 +1355,12 @@ type viewInst struct {
 func canonView(peer string, nodes structs.CheckServiceNodes, stripVIP bool) []viewInst {
 	out := []viewInst{}
 	for _, c := range nodes {
+		// node names are compared the way the catalog compares them (strings.EqualFold /
+		// lower-cased keys): an unchanged node keeps the spelling it was first stored with
 		n := nodeRow(c.Node)
 		n.Peer = peer
-		s := svcRow(c.Node.Node, c.Service)
+		n.Name = strings.ToLower(n.Name)
+		s := svcRow(strings.ToLower(c.Node.Node), c.Service)
 		s.Peer = peer
 		if stripVIP {
 			s.VIP = ""
@@ -1367,6 +1370,7 @@ func canonView(peer string, nodes structs.CheckServiceNodes, stripVIP bool) []vi
 			kr := chkRow(k)
 			kr.Peer = peer
 			kr.SName, kr.STags = "", 0
+			kr.Node = strings.ToLower(kr.Node)
 			v.Chks = append(v.Chks, kr)
 		}
 		sort.Slice(v.Chks, func(i, j int) bool { return v.Chks[i].ID < v.Chks[j].ID })
